@@ -61,6 +61,8 @@ package stream
 //@   ensures#errclean err != nil ==> len(r.unread) == 0 && !last                                             [C02 C13]
 //@   ensures#trunc len(old(r.src.$rem)) == 0 ==> err != nil                                                  [C02]
 //@   ensures#noeof err != io.EOF                                                                             [C02 C13]
+//@   ensures#srcerr (lasterr("io.ReadFull",1) != nil && lasterr("io.ReadFull",1) != io.EOF && lasterr("io.ReadFull",1) != io.ErrUnexpectedEOF) ==> err == lasterr("io.ReadFull",1)   [C13]
+//@   ensures#srceof lasterr("io.ReadFull",1) == io.EOF ==> err == io.ErrUnexpectedEOF                        [C02 C13]
 //@   ensures#shape err == nil ==> (len(old(r.src.$rem)) - len(r.src.$rem) == ECS || (len(old(r.src.$rem)) - len(r.src.$rem) < ECS && len(r.src.$rem) == 0)) && len(old(r.src.$rem)) - len(r.src.$rem) >= 16   [C02 C12]
 //@   ensures#short err == nil && len(old(r.src.$rem)) - len(r.src.$rem) < ECS ==> last                       [C02]
 //@   ensures#emptyfirst err == nil && len(old(r.src.$rem)) - len(r.src.$rem) == 16 ==> old(ctr(r.nonce)) == 0 && old(r.nonce[11]) == 0   [C02]
@@ -81,6 +83,7 @@ package stream
 //@   ensures#sticky old(r.err) != nil && len(old(r.unread)) == 0 ==> n == 0 && err == old(r.err) && r.err == old(r.err) && r.src.$rem == old(r.src.$rem)   [C02 C13]
 //@   ensures#stored err != nil ==> r.err == err && n == 0 && len(r.unread) == 0                                             [C02 C13]
 //@   ensures#keeperr old(r.err) != nil ==> r.err == old(r.err)                                                               [C02 C13]
+//@   ensures#chunkerr lasterr("readChunk",1) != nil ==> err == lasterr("readChunk",1)                                        [C13]
 //@   ensures#buffered len(old(r.unread)) > 0 ==> err == nil && n == min(len(p), len(old(r.unread))) && r.src.$rem == old(r.src.$rem) && r.err == old(r.err)   [C01 C02 C12]
 //@   ensures#bufdata len(old(r.unread)) > 0 ==> sub(bytes(p), 0, n) == sub(old(bytes(r.unread)), 0, n)                     [C01 C02 C12]
 //@   ensures#bufrest len(old(r.unread)) > 0 ==> bytes(r.unread) == sub(old(bytes(r.unread)), n, len(old(r.unread)))         [C01 C02 C12]
